@@ -3,18 +3,32 @@
 
    A behaviour is ONE call of connect(rdwr=.., llcp=.., card=.., terminate=..) against one environment.
    The configuration `cfg` is chosen in Init and never changes:
-     has[o]    option o \in {"rdwr","llcp","card"} is given (a dictionary, possibly empty)
-     empty[o]  the option is given as an EMPTY dictionary: the mode is active with all its documented defaults -
-               rdwr: targets 106A/106B/212F, on-startup keeps them, on-discover accepts every tag (not P2P
-               devices), on-connect/on-release return True, beep; llcp: on-startup keeps the llc, on-connect /
-               on-release return True, both roles; card: the default on-startup returns None, which removes the
-               option.  The defaults are ordinary callbacks: same order, polling and return value as when the
-               same values are given explicitly (only that no user code observes them)
-     su[o]     what its 'on-startup' returns: "keep" (the proper object), "drop" (a false value),
+   HOW THE ARGUMENTS ARE WRITTEN (every documented keyword and key: absent | present with the value that means
+   "default / no restriction" | present with each documented value):
+     top[o]    keyword o \in {"rdwr","llcp","card"}: "absent" | "none" (o=None, the same as absent) | "dict"
+     noterm    the 'terminate' keyword is absent (the documented default never terminates: the call ends only
+               through an activation) - otherwise terminate() turns true at poll termAt
+     giv[o][n] the callback key 'on-'n is present in the dictionary o.  A key that is absent stands for its documented
+               default - rdwr: on-startup keeps the targets, on-discover accepts every tag (not P2P devices),
+               on-connect / on-release return True; llcp: on-startup keeps the llc, on-connect / on-release return
+               True; card: the default on-startup returns None, which removes the option, on-discover / on-connect /
+               on-release return True.  The defaults are ordinary callbacks: same order, polling and return value
+               as when the same values are given explicitly (only that no user code observes them).
+               An EMPTY dictionary is the case "no key at all": the mode is active with all its defaults
+     su[o]     what 'on-startup' returns: "keep" (the proper object), "drop" (a false value),
                "wrong" (a true value of the wrong type)
      disc[o], conn[o], rel[o]   what 'on-discover', 'on-connect', 'on-release' return (TRUE/FALSE)
-     beep      rdwr 'beep-on-connect'
-     role      llcp 'role': "both" (option absent), "initiator", "target"
+               (for a key that is not given: the value its default returns)
+     beep      rdwr 'beep-on-connect': "absent" (default: on) | "true" | "false"
+     role      llcp 'role': "absent" | "none" (role=None: no restriction, as examples/cli.py writes it) - both mean
+               that the device alternates between both roles - | "initiator" | "target"
+     sf        rdwr discovery loop: tgt = 'targets' "absent" (default 106A, 106B, 212F) | "default" (the same three,
+               written out) | "match" (one technology, the one of the tag in the field) | "miss" (one technology,
+               not the one in the field: the tag / peer is never discovered);  iter = 'iterations' (0 = absent,
+               default 5);  ival = 'interval' in ms (-1 = absent, default 500)
+     dep       llcp link parameters 'brs' 'acm' 'rwt' 'lri' 'lrt' 'miu' 'lto' 'agf' (-1 = absent, else the value;
+               booleans 0/1).  They do not change the callback contract; what the peer is told during link
+               activation must be the given value, or the documented default for an absent key (WireOk)
      env       "nothing" | "tag" (Type 2 tag that answers k presence checks, then is gone) |
                "peerT" / "peerI" (NFC-DEP+LLCP peer acting as target / initiator, answers k LLC exchanges,
                then releases) | "reader" (discovers our emulated Type 3 tag, sends k further commands, leaves)
@@ -46,13 +60,14 @@
    * "returns None ... when the 'terminate' function returned a true value" is read for terminations
      outside an activation; a terminate() during the presence / symmetry / command loop ends that
      activation through on-release (documented under 'on-release') and connect() returns its value.  *)
-EXTENDS Naturals, Sequences, FiniteSets, TLC
+EXTENDS Integers, Sequences, FiniteSets, TLC
 
 CONSTANTS MaxOpts,     \* at most this many of rdwr/llcp/card are given (3 everywhere except in the witness runs)
           KMax,        \* budgets 0..KMax
           TMax         \* termAt \in 0..TMax  (a call whose terminate() never turns true does not end unless an
                        \* activation ends it; every finite prefix of such a call is a prefix of a call with a
-                       \* larger termAt, so only finite values are explored)
+                       \* larger termAt, so only finite values are explored - plus the call WITHOUT a terminate
+                       \* argument, cfg.noterm, whose model is bounded by the CONSTRAINT NoTermBound)
 
 Opt == {"rdwr", "llcp", "card"}
 Envs == {"nothing", "tag", "tagU", "tagX", "peerT", "peerI", "reader", "readerU", "ioerror", "unsupported"}
@@ -60,52 +75,141 @@ Roles == {"both", "initiator", "target"}
 StartupRes == {"keep", "drop", "wrong"}
 ObjOf(o) == CASE o = "rdwr" -> "tag" [] o = "llcp" -> "llc" [] o = "card" -> "emu"
 
+\* ---- how the arguments are written
+CbN == {"startup", "discover", "connect", "release"}
+TopForms == {"absent", "none", "dict"}
+RoleForms == {"absent", "none", "initiator", "target"}
+BeepForms == {"absent", "true", "false"}
+TgtForms == {"absent", "default", "match", "miss"}
+DepKeys == {"brs", "acm", "rwt", "lri", "lrt", "miu", "lto", "agf"}
+\* the documented values of the link parameters
+DepVals(k) == CASE k = "brs" -> {0, 1, 2} [] k = "acm" -> {0, 1} [] k = "rwt" -> {0, 8, 14}
+                [] k = "lri" -> {0, 1, 2, 3} [] k = "lrt" -> {0, 1, 2, 3} [] k = "miu" -> {128, 248, 2175}
+                [] k = "lto" -> {100, 500, 1000} [] k = "agf" -> {0, 1}
+NoDep == [k \in DepKeys |-> -1]
+\* every key alone with every documented value, nothing, everything with its documented default, everything changed
+DocDefaults == [brs |-> 2, acm |-> 0, rwt |-> 8, lri |-> 3, lrt |-> 3, miu |-> 128, lto |-> 500, agf |-> 1]
+AllChanged == [brs |-> 1, acm |-> 1, rwt |-> 14, lri |-> 1, lrt |-> 2, miu |-> 2175, lto |-> 1000, agf |-> 0]
+DepForms == {NoDep, DocDefaults, AllChanged} \cup UNION {{[NoDep EXCEPT ![k] = v] : v \in DepVals(k)} : k \in DepKeys}
+DepFormOk(d) == \A k \in DepKeys : d[k] = -1 \/ d[k] \in DepVals(k)
+SF(t, i, v) == [tgt |-> t, iter |-> i, ival |-> v]
+BaseSF == SF("match", 1, 0)              \* one matching technology, one round, no pause
+AbsSF == SF("absent", 0, -1)             \* nothing written: 106A/106B/212F, 5 rounds, 500 ms
+SenseForms == {BaseSF, AbsSF, SF("default", 5, 500), SF("miss", 1, 0), SF("match", 0, -1), SF("absent", 1, 0),
+               SF("default", 2, 1), SF("match", 2, 1), SF("match", 3, 100), SF("miss", 0, -1)}
+IterVals == {0, 1, 2, 3, 5}
+IvalVals == {-1, 0, 1, 100, 500}
+
+HasC(c, o) == c.top[o] = "dict"
+G(s, d, cn, r) == [startup |-> s, discover |-> d, connect |-> cn, release |-> r]
+NoG == G(FALSE, FALSE, FALSE, FALSE)
+AllG(withDisc) == G(TRUE, withDisc, TRUE, TRUE)
+DefSu(o) == IF o = "card" THEN "drop" ELSE "keep"
+RoleEffC(c) == IF c.role \in {"absent", "none"} THEN "both" ELSE c.role
+BeepEffC(c) == c.beep # "false"
+
 \* canonical configurations: parameters that cannot influence the call are pinned to one value
 Canon(c) ==
-    /\ \A o \in Opt : ~c.has[o] => c.su[o] = "keep" /\ c.conn[o] /\ c.rel[o] /\ c.disc[o]
+    /\ \A o \in Opt : ~HasC(c, o) => c.su[o] = "keep" /\ c.conn[o] /\ c.rel[o] /\ c.disc[o] /\ c.giv[o] = NoG
     /\ \A o \in Opt : c.su[o] # "keep" => c.conn[o] /\ c.rel[o] /\ c.disc[o]
-    /\ c.disc["llcp"]                                     \* llcp has no on-discover
+    /\ c.disc["llcp"] /\ ~c.giv["llcp"].discover          \* llcp has no on-discover
     /\ \A o \in Opt : ~c.disc[o] => c.conn[o] /\ c.rel[o]
     /\ \A o \in Opt : ~c.conn[o] => c.rel[o]
-    /\ ((~c.has["rdwr"] \/ c.su["rdwr"] # "keep" \/ ~c.disc["rdwr"] \/ ~c.conn["rdwr"]) => c.beep)
-    /\ ((~c.has["llcp"] \/ c.su["llcp"] # "keep") => c.role = "both")
+    \* a callback that is not given returns what its documented default returns
+    /\ \A o \in Opt : HasC(c, o) =>
+          /\ (~c.giv[o].startup => c.su[o] = DefSu(o))
+          /\ (~c.giv[o].discover => c.disc[o]) /\ (~c.giv[o].connect => c.conn[o]) /\ (~c.giv[o].release => c.rel[o])
+    /\ ((~HasC(c, "rdwr") \/ c.su["rdwr"] # "keep" \/ ~c.disc["rdwr"] \/ ~c.conn["rdwr"]) => c.beep # "false")
+    \* (harness: the default on-connect is observed through the LED)
+    /\ (~c.giv["rdwr"].connect => c.beep # "false")
+    /\ ((~HasC(c, "llcp") \/ c.su["llcp"] # "keep") => c.role = "absent")
+    /\ (~HasC(c, "rdwr") => c.sf = AbsSF /\ c.beep = "absent")
+    /\ (~HasC(c, "llcp") => c.dep = NoDep)
+    /\ DepFormOk(c.dep)
     /\ (c.env \in {"nothing", "ioerror", "unsupported", "readerU"} => c.k = 0)
-    /\ \A o \in Opt : c.empty[o] => /\ c.has[o] /\ c.disc[o] /\ c.conn[o] /\ c.rel[o]
-                                     /\ c.su[o] = (IF o = "card" THEN "drop" ELSE "keep")
-    /\ (c.empty["rdwr"] => c.beep) /\ (c.empty["llcp"] => c.role = "both")
+    /\ (c.noterm => c.termAt = 0)
 
 CfgSpace(kmax, terms) ==
-    [has : [Opt -> BOOLEAN], su : [Opt -> StartupRes], disc : [Opt -> BOOLEAN], conn : [Opt -> BOOLEAN],
-     rel : [Opt -> BOOLEAN], empty : [Opt -> BOOLEAN], beep : BOOLEAN, role : Roles, env : Envs, k : 0..kmax, termAt : terms]
+    [top : [Opt -> TopForms], giv : [Opt -> [CbN -> BOOLEAN]], su : [Opt -> StartupRes], disc : [Opt -> BOOLEAN],
+     conn : [Opt -> BOOLEAN], rel : [Opt -> BOOLEAN], beep : BeepForms, role : RoleForms,
+     sf : [tgt : TgtForms, iter : IterVals, ival : IvalVals], dep : [DepKeys -> Int],
+     env : Envs, k : 0..kmax, termAt : terms, noterm : BOOLEAN]
 
-\* the canonical configurations, built constructively (per option: absent | dropped | wrong type | kept with
-\* the callback results that can matter)
-OV(has, su, disc, conn, rel) == [has |-> has, su |-> su, disc |-> disc, conn |-> conn, rel |-> rel, empty |-> FALSE]
+\* the canonical configurations, built constructively (per option: not given (absent / None) | {} | dropped | wrong
+\* type | kept with the callback results that can matter | only some of the callback keys given)
+OV(top, g, su, disc, conn, rel) == [top |-> top, giv |-> g, su |-> su, disc |-> disc, conn |-> conn, rel |-> rel]
+NotGiven == {OV("absent", NoG, "keep", TRUE, TRUE, TRUE), OV("none", NoG, "keep", TRUE, TRUE, TRUE)}
 \* the option given as {}: all defaults (card: the default on-startup returns None = option removed)
-EmptyDict(isCard) == [OV(TRUE, IF isCard THEN "drop" ELSE "keep", TRUE, TRUE, TRUE) EXCEPT !.empty = TRUE]
-Absent == OV(FALSE, "keep", TRUE, TRUE, TRUE)
-Kept(withDisc) ==
-    {OV(TRUE, "keep", TRUE, FALSE, TRUE), OV(TRUE, "keep", TRUE, TRUE, TRUE), OV(TRUE, "keep", TRUE, TRUE, FALSE)}
-    \cup (IF withDisc THEN {OV(TRUE, "keep", FALSE, TRUE, TRUE)} ELSE {})
-Variants(withDisc, isCard) == {Absent, EmptyDict(isCard), OV(TRUE, "drop", TRUE, TRUE, TRUE), OV(TRUE, "wrong", TRUE, TRUE, TRUE)}
-                              \cup Kept(withDisc)
-BeepOf(r) == IF r.has /\ r.su = "keep" /\ r.disc /\ r.conn /\ ~r.empty THEN BOOLEAN ELSE {TRUE}
-RoleOf(l) == IF l.has /\ l.su = "keep" /\ ~l.empty THEN Roles ELSE {"both"}
+EmptyDict(o) == OV("dict", NoG, DefSu(o), TRUE, TRUE, TRUE)
+Kept(g) ==
+    {OV("dict", g, "keep", TRUE, FALSE, TRUE), OV("dict", g, "keep", TRUE, TRUE, TRUE), OV("dict", g, "keep", TRUE, TRUE, FALSE)}
+    \cup (IF g.discover THEN {OV("dict", g, "keep", FALSE, TRUE, TRUE)} ELSE {})
+Full(withDisc) == {OV("dict", AllG(withDisc), "drop", TRUE, TRUE, TRUE), OV("dict", AllG(withDisc), "wrong", TRUE, TRUE, TRUE)}
+                  \cup Kept(AllG(withDisc))
+\* some keys given, the others defaulted: all given callbacks return the "go on" value, or exactly one of them
+\* returns its other value
+PartialG(o) == {g \in [CbN -> BOOLEAN] : /\ g # NoG /\ g # AllG(o # "llcp") /\ (g.discover => o # "llcp")
+                                         /\ (o = "card" /\ ~g.startup => g = G(FALSE, TRUE, TRUE, TRUE))}
+Pos(o, g) == OV("dict", g, IF g.startup THEN "keep" ELSE DefSu(o), TRUE, TRUE, TRUE)
+Negs(o, g) == IF o = "card" /\ ~g.startup THEN {}
+              ELSE (IF g.startup THEN {[Pos(o, g) EXCEPT !.su = "drop"]} ELSE {})
+                   \cup (IF g.discover THEN {[Pos(o, g) EXCEPT !.disc = FALSE]} ELSE {})
+                   \cup (IF g.connect THEN {[Pos(o, g) EXCEPT !.conn = FALSE]} ELSE {})
+                   \cup (IF g.release THEN {[Pos(o, g) EXCEPT !.rel = FALSE]} ELSE {})
+Partial(o) == UNION {{Pos(o, g)} \cup Negs(o, g) : g \in PartialG(o)}
+Variants(o) == NotGiven \cup {EmptyDict(o)} \cup Full(o # "llcp")
+EffKept(v) == v.top = "dict" /\ v.su = "keep"
+Plain(v, o) == EffKept(v) /\ v.disc /\ v.conn /\ v.rel /\ (v.giv = NoG \/ v.giv = AllG(o # "llcp"))
+\* The written forms that mean the same (role absent / None, beep-on-connect absent / True, ...), the partial key sets,
+\* the forms of the discovery loop and the link parameters do not interact with the other options in this model:
+\* they are enumerated for calls with ONE option dictionary (`rich`; the two other keywords both absent or both None)
+BeepOf(r, rich) == IF EffKept(r) /\ r.disc /\ r.conn
+                   THEN IF rich THEN (IF r.giv.connect THEN BeepForms ELSE {"absent", "true"})
+                        ELSE IF r.giv = NoG THEN {"absent"} ELSE {"true", "false"}
+                   ELSE IF r.top = "dict" /\ r.giv = AllG(TRUE) THEN {"true"} ELSE {"absent"}
+RoleOf(l, rich) == IF EffKept(l)
+                   THEN IF rich THEN RoleForms ELSE IF l.giv = NoG THEN {"absent"} ELSE {"absent", "initiator", "target"}
+                   ELSE {"absent"}
+NaturalSF(r) == IF r.top = "dict" /\ r.giv # NoG THEN BaseSF ELSE AbsSF
+SfOf(r, rich, e) == IF rich /\ Plain(r, "rdwr") /\ e \in {"nothing", "tag", "peerT", "unsupported"}
+                    THEN SenseForms ELSE {NaturalSF(r)}
+DepOf(l, ro, rich, e) == IF rich /\ Plain(l, "llcp") /\ ro = "absent" /\ e \in {"nothing", "peerT", "peerI"}
+                         THEN DepForms ELSE {NoDep}
 KOf(e, kmax) == IF e \in {"nothing", "ioerror", "unsupported", "readerU"} THEN {0} ELSE 0..kmax
-Mk(r, l, c, b, ro, e, k, t) ==
-    [has |-> [o \in Opt |-> CASE o = "rdwr" -> r.has [] o = "llcp" -> l.has [] o = "card" -> c.has],
-     su |-> [o \in Opt |-> CASE o = "rdwr" -> r.su [] o = "llcp" -> l.su [] o = "card" -> c.su],
-     disc |-> [o \in Opt |-> CASE o = "rdwr" -> r.disc [] o = "llcp" -> l.disc [] o = "card" -> c.disc],
-     conn |-> [o \in Opt |-> CASE o = "rdwr" -> r.conn [] o = "llcp" -> l.conn [] o = "card" -> c.conn],
-     rel |-> [o \in Opt |-> CASE o = "rdwr" -> r.rel [] o = "llcp" -> l.rel [] o = "card" -> c.rel],
-     empty |-> [o \in Opt |-> CASE o = "rdwr" -> r.empty [] o = "llcp" -> l.empty [] o = "card" -> c.empty],
-     beep |-> b, role |-> ro, env |-> e, k |-> k, termAt |-> t]
-Terms == 0..TMax
-IsCfg(x) ==
-    \E r \in Variants(TRUE, FALSE), l \in Variants(FALSE, FALSE), c \in Variants(TRUE, TRUE) :
-      /\ Cardinality({v \in {<<1, r.has>>, <<2, l.has>>, <<3, c.has>>} : v[2]}) <= MaxOpts
-      /\ \E e \in Envs :
-        \E b \in BeepOf(r), ro \in RoleOf(l), k \in KOf(e, KMax), t \in Terms : x = Mk(r, l, c, b, ro, e, k, t)
+Pick(o, r, l, c) == CASE o = "rdwr" -> r [] o = "llcp" -> l [] o = "card" -> c
+Mk(r, l, c, b, ro, sf, dp, e, k, t, nt) ==
+    [top |-> [o \in Opt |-> Pick(o, r, l, c).top], giv |-> [o \in Opt |-> Pick(o, r, l, c).giv],
+     su |-> [o \in Opt |-> Pick(o, r, l, c).su], disc |-> [o \in Opt |-> Pick(o, r, l, c).disc],
+     conn |-> [o \in Opt |-> Pick(o, r, l, c).conn], rel |-> [o \in Opt |-> Pick(o, r, l, c).rel],
+     beep |-> b, role |-> ro, sf |-> sf, dep |-> dp, env |-> e, k |-> k, termAt |-> t, noterm |-> nt]
+\* terminate() turns true at poll t, or there is no terminate argument
+Terms == {<<t, FALSE>> : t \in 0..TMax} \cup {<<0, TRUE>>}
+Tops(r, l, c) == <<r.top, l.top, c.top>>
+NDict(r, l, c) == Cardinality({i \in 1..3 : Tops(r, l, c)[i] = "dict"})
+RichT(r, l, c) == /\ NDict(r, l, c) = 1
+                  /\ Cardinality({Tops(r, l, c)[i] : i \in {j \in 1..3 : Tops(r, l, c)[j] # "dict"}}) = 1
+SameNG == {<<a, a>> : a \in NotGiven}
+\* (keyword=None next to several option dictionaries is left to the harness: seeded, outside this grid)
+OptTriples ==
+    {<<r, l, c>> \in Variants("rdwr") \X Variants("llcp") \X Variants("card") :
+        /\ NDict(r, l, c) <= MaxOpts
+        /\ (NDict(r, l, c) >= 2 => \A i \in 1..3 : Tops(r, l, c)[i] # "none")}
+    \cup {<<r, ng[1], ng[2]>> : r \in Partial("rdwr"), ng \in SameNG}
+    \cup {<<ng[1], l, ng[2]>> : l \in Partial("llcp"), ng \in SameNG}
+    \cup {<<ng[1], ng[2], c>> : c \in Partial("card"), ng \in SameNG}
+CfgsOf(x, tr, richAllowed, terms) ==
+      LET r == tr[1]  l == tr[2]  c == tr[3]  rich == richAllowed /\ RichT(tr[1], tr[2], tr[3]) IN
+      \E e \in Envs :
+        \E b \in BeepOf(r, rich), ro \in RoleOf(l, rich), k \in KOf(e, KMax), t \in terms :
+          \E sf \in SfOf(r, rich, e), dp \in DepOf(l, ro, rich, e) :
+              x = Mk(r, l, c, b, ro, sf, dp, e, k, t[1], t[2])
+IsCfg(x) == \E tr \in OptTriples : CfgsOf(x, tr, TRUE, Terms)
+
+\* the plainly written calls (keywords that are not used are absent, a terminate argument, all callback keys or none, no
+\* role=None, the natural discovery loop, no link parameters): the part of the grid the witnesses of the life cycle need
+PlainV(o) == {v \in Variants(o) : v.top # "none"}
+PlainTriples == {<<r, l, c>> \in PlainV("rdwr") \X PlainV("llcp") \X PlainV("card") : NDict(r, l, c) <= MaxOpts}
+IsPlainCfg(x) == \E tr \in PlainTriples : CfgsOf(x, tr, FALSE, {<<t, FALSE>> : t \in 0..TMax})
 
 VARIABLES cfg,
           pc,          \* control state
@@ -124,8 +228,8 @@ VARIABLES cfg,
           lateWork     \* a discovery / activation / data step happened after terminate() was true
 vars == <<cfg, pc, role, left, polls, envk, gone, found, cb, ret, led, err, termSeen, after, lateWork>>
 
-Init ==
-    /\ IsCfg(cfg)
+InitOf(IsC(_)) ==
+    /\ IsC(cfg)
     /\ pc = "start"
     /\ role = ""
     /\ left = {}
@@ -140,20 +244,32 @@ Init ==
     /\ termSeen = FALSE
     /\ after = 0
     /\ lateWork = FALSE
+Init == InitOf(IsCfg)
+PlainInit == InitOf(IsPlainCfg)
 
 -----------------------------------------------------------------------------
+\* what the written arguments mean
+Has(o) == HasC(cfg, o)
+RoleEff == RoleEffC(cfg)              \* role absent and role=None both mean: no restriction
+BeepEff == BeepEffC(cfg)
+MultiTarget == cfg.sf.tgt \in {"absent", "default"}
+NTargets == IF MultiTarget THEN 3 ELSE 1
+IterEff == IF cfg.sf.iter = 0 THEN 5 ELSE cfg.sf.iter
+IvalEff == IF cfg.sf.ival = -1 THEN 500 ELSE cfg.sf.ival
+DepEff(k, dflt) == IF cfg.dep[k] = -1 THEN dflt ELSE cfg.dep[k]
+
 \* control flow helpers (no stuttering steps: each returns the next control state that has an action)
 StartupOrder == <<"llcp", "rdwr", "card">>            \* order of the on-startup calls in the code
 PhaseOrder == <<"rdwr", "llcp", "card">>              \* order inside the main loop
 
 \* next on-startup to call after position i, or the state after start-up
 StartFrom(i, lft) ==
-    IF i <= 3 /\ cfg.has[StartupOrder[i]] THEN <<"startup", i>>
-    ELSE IF i + 1 <= 3 /\ cfg.has[StartupOrder[i + 1]] THEN <<"startup", i + 1>>
-    ELSE IF i + 2 <= 3 /\ cfg.has[StartupOrder[i + 2]] THEN <<"startup", i + 2>>
+    IF i <= 3 /\ Has(StartupOrder[i]) THEN <<"startup", i>>
+    ELSE IF i + 1 <= 3 /\ Has(StartupOrder[i + 1]) THEN <<"startup", i + 1>>
+    ELSE IF i + 2 <= 3 /\ Has(StartupOrder[i + 2]) THEN <<"startup", i + 2>>
     ELSE IF lft = {} THEN <<"ret", 0>> ELSE <<"poll", 0>>
 
-FirstRole == IF cfg.role = "initiator" THEN "initiator" ELSE "target"
+FirstRole == IF RoleEff = "initiator" THEN "initiator" ELSE "target"
 PhasePc(o) == CASE o = "rdwr" -> "rdwr_sense" [] o = "llcp" -> "llcp_act" [] o = "card" -> "card_listen"
 \* first phase at or after position i of the main loop body, or back to the loop condition
 PhaseFrom(i) ==
@@ -215,11 +331,13 @@ Return ==
     /\ Step("Return")
     /\ UNCHANGED <<role, left, polls, envk, gone, found, cb, led, err, termSeen>>
 
-TermNow == polls >= cfg.termAt
+\* without a terminate argument nothing ever asks to stop (and no poll is observable)
+TermNow == ~cfg.noterm /\ polls >= cfg.termAt
+PollCount == IF cfg.noterm THEN polls ELSE polls + 1
 \* `while not terminate():` of the main loop
 Poll ==
     /\ pc = "poll"
-    /\ polls' = polls + 1
+    /\ polls' = PollCount
     /\ termSeen' = (termSeen \/ TermNow)
     /\ IF TermNow THEN Goto("ret") /\ UNCHANGED role
        ELSE /\ Goto(PhaseFrom(1))
@@ -232,14 +350,15 @@ Enter(p) == /\ Goto(p)
             /\ role' = IF p = "llcp_act" THEN FirstRole ELSE role
 
 DeviceFails == cfg.env \in {"ioerror", "unsupported"}
-\* the default rdwr target list has three entries: targets the device does not support are skipped, not raised
-SenseFails == cfg.env = "ioerror" \/ (cfg.env = "unsupported" /\ ~cfg.empty["rdwr"])
+\* with several targets (the default list has three entries) those the device does not support are skipped, not raised
+SenseFails == cfg.env = "ioerror" \/ (cfg.env = "unsupported" /\ ~MultiTarget)
 ListenFails == DeviceFails \/ cfg.env = "tagU"       \* listen() ends in an exception
 Fail == /\ err' = TRUE /\ Goto("ret")
 
 -----------------------------------------------------------------------------
 \* reader/writer
 SenseRes == IF SenseFails THEN cfg.env
+            ELSE IF cfg.sf.tgt = "miss" THEN "none"      \* the technology in the field is not among 'targets'
             ELSE IF cfg.env \in {"tag", "tagU", "tagX"} /\ ~gone THEN "tag"
             ELSE IF cfg.env = "peerT" /\ ~gone THEN "dep"
             ELSE "none"
@@ -269,7 +388,7 @@ RdwrConnect ==
     /\ pc = "rdwr_conn"
     /\ cb' = Append(cb, CbRec("connect", "rdwr", cfg.conn["rdwr"]))
     /\ IF ~cfg.conn["rdwr"] THEN Goto("ret")
-       ELSE IF cfg.beep THEN Goto("led_on") ELSE Goto("pres_poll")
+       ELSE IF BeepEff THEN Goto("led_on") ELSE Goto("pres_poll")
     /\ Step("Connect")
     /\ UNCHANGED <<role, left, polls, envk, gone, found, ret, led, err, termSeen>>
 
@@ -283,7 +402,7 @@ LedOn ==
 \* `while not terminate() and tag.is_present:`
 PresPoll ==
     /\ pc = "pres_poll"
-    /\ polls' = polls + 1
+    /\ polls' = PollCount
     /\ termSeen' = (termSeen \/ TermNow)
     /\ IF TermNow THEN Goto("led_off") ELSE Goto("presence")
     /\ Step("Term")
@@ -314,7 +433,7 @@ Release(o, p) ==
 \* peer to peer
 ActOk == \/ role = "target" /\ cfg.env = "peerI" /\ ~gone
          \/ role = "initiator" /\ cfg.env = "peerT" /\ ~gone
-NextRole == IF role = "target" /\ cfg.role = "both" THEN "initiator" ELSE ""
+NextRole == IF role = "target" /\ RoleEff = "both" THEN "initiator" ELSE ""
 
 LlcActivate ==
     /\ pc = "llcp_act"
@@ -343,7 +462,7 @@ RunFirst ==
 \* `while not terminate():` of the symmetry loop; as target a link that is already gone is noticed after it
 RunPoll ==
     /\ pc = "run_poll"
-    /\ polls' = polls + 1
+    /\ polls' = PollCount
     /\ termSeen' = (termSeen \/ TermNow)
     /\ IF TermNow \/ (role = "target" /\ gone) THEN Goto("run_end") ELSE Goto("run_x")
     /\ Step("Term")
@@ -391,7 +510,7 @@ CardConnect ==
 
 ServePoll ==
     /\ pc = "serve_poll"
-    /\ polls' = polls + 1
+    /\ polls' = PollCount
     /\ termSeen' = (termSeen \/ TermNow)
     /\ IF TermNow THEN Goto("card_rel") ELSE Goto("serve")
     /\ Step("Term")
@@ -412,6 +531,7 @@ Next ==
     \/ CardListen \/ CardDiscover \/ CardConnect \/ ServePoll \/ Serve
 
 Spec == Init /\ [][Next]_vars
+
 
 -----------------------------------------------------------------------------
 \* The documented contract, as predicates over the recorded history (parametric: trace mode primes them)
@@ -457,14 +577,46 @@ ReturnValueP(p, r, s, lft, e, ts) ==
 PromptP(a, lw) == a <= 7 /\ ~lw
 
 \* the LED/buzzer is on only while a tag is being watched and is off when connect() returns
-LedP(p, ld) == /\ ld => p \in {"pres_poll", "presence", "led_off"} /\ cfg.beep
+LedP(p, ld) == /\ ld => p \in {"pres_poll", "presence", "led_off"} /\ BeepEff
                /\ p = "done" => ~ld
+
+\* ---- what the written discovery / link parameters do on the device and on the air (event level: the trace
+\* module compares them with the driver log and with what the simulated peer received)
+Max0(x) == IF x > 0 THEN x ELSE 0
+\* one discovery attempt of the reader/writer loop: att = number of driver sense calls, pauses = the arguments of
+\* time.sleep() between the rounds (microseconds), cost = the time one driver sense call takes (microseconds):
+\* 'iterations' rounds over all 'targets', 'interval' minus the time the round took between two rounds; the loop
+\* ends with the first target found
+SenseLoopP(att, pauses, cost) ==
+    IF SenseFails THEN att = 1 /\ pauses = <<>>
+    ELSE IF SenseRes = "none"
+         THEN /\ att = IterEff * NTargets
+              /\ Len(pauses) = IterEff - 1
+              /\ \A i \in DOMAIN pauses : pauses[i] = Max0(IvalEff * 1000 - NTargets * cost)
+    ELSE att \in 1..NTargets /\ pauses = <<>>
+\* link activation in role rl with result res: w = what the peer was told (lr: length reduction, wt: waiting time
+\* index, miu, lto (ms), psl: the bit rate selector negotiated, acm: an active mode target was searched).  A given
+\* value is used; an absent key stands for its documented default.  The defaults of 'miu' (documented 128, the llc
+\* announces 248) and 'acm' (documented: passive only, nfc.dep tries active mode first) differ between the
+\* documentation and the code - not judged, both accepted.
+MiuOk(m) == IF cfg.dep.miu = -1 THEN m \in {128, 248} ELSE m = cfg.dep.miu
+WireOkP(rl, res, w) ==
+    IF rl = "target"
+    THEN res # "error" => /\ w.lr = DepEff("lrt", 3) /\ w.wt = DepEff("rwt", 8)
+                          /\ MiuOk(w.miu) /\ w.lto = DepEff("lto", 500)
+    ELSE /\ (res # "error" => cfg.dep.acm = -1 \/ w.acm = cfg.dep.acm)
+         /\ (res = "ok" => /\ w.lr = DepEff("lri", 3) /\ MiuOk(w.miu) /\ w.lto = DepEff("lto", 500)
+                           /\ w.psl = DepEff("brs", 2))
 
 Order == OrderP(cb)
 ReleaseIff == ReleaseIffP(cb, pc = "done")
 ReturnValue == ReturnValueP(pc, ret, cb, left, err, termSeen)
 Prompt == PromptP(after, lateWork)
 Led == LedP(pc, led)
+
+\* state constraint for the model of a call without terminate argument (a reader that discovers an emulation that
+\* cannot be built is answered again and again)
+NoTermBound == cfg.noterm => Len(cb) <= 8
 
 TypeOK == /\ cfg \in CfgSpace(KMax, Nat)
           /\ left \subseteq Opt
@@ -482,4 +634,14 @@ W_TagVanished == ~(pc = "led_off" /\ gone /\ ~termSeen)
 W_PeerReleased == ~(pc = "run_end" /\ gone /\ ~termSeen /\ role = "target")
 W_NotEmulatable == ~(pc = "poll" /\ cfg.env = "readerU" /\ cb # <<>> /\ cb[Len(cb)].n = "discover" /\ cb[Len(cb)].r)
 W_ReaderLeft == ~(pc = "card_rel" /\ gone /\ ~termSeen)
+\* the written forms
+W_RoleNoneTarget == ~(pc = "llcp_conn" /\ cfg.role = "none" /\ role = "target")
+W_RoleNoneInitiator == ~(pc = "llcp_conn" /\ cfg.role = "none" /\ role = "initiator")
+W_NoTermTrue == ~(pc = "done" /\ cfg.noterm /\ ret = "True")
+W_NoneKeyword == ~(pc = "done" /\ ret = "tag" /\ cfg.top["llcp"] = "none" /\ cfg.top["card"] = "none")
+W_TargetsMiss == ~(pc = "poll" /\ polls > 1 /\ cfg.env = "tag" /\ cfg.sf.tgt = "miss" /\ ~gone)
+W_DefaultRelease == ~(pc = "done" /\ ret = "True" /\ cfg.giv["rdwr"].connect /\ ~cfg.giv["rdwr"].release)
+W_DefaultStartupKeeps == ~(pc = "done" /\ ret = "llc" /\ ~cfg.giv["llcp"].startup /\ cfg.giv["llcp"].connect)
+W_LinkParams == ~(pc = "llcp_conn" /\ cfg.dep # NoDep /\ cfg.dep # DocDefaults)
+W_DefaultLoop == ~(pc = "poll" /\ polls > 0 /\ cfg.sf = SF("default", 5, 500) /\ cfg.giv["rdwr"].startup)
 =============================================================================
